@@ -102,9 +102,10 @@ func block(name, header string, children ...*node) *node {
 // Lint fixture: two target files in two directories and one file that is only imported.
 
 const (
-	lintFileA = "a/v1/x.proto"
-	lintFileB = "b/v1/y.proto"
-	lintFileC = "c/v1/z.proto" // import-only
+	lintFileA  = "a/v1/x.proto"
+	lintFileA2 = "a/v1/x2.proto"
+	lintFileB  = "b/v1/y.proto"
+	lintFileC  = "c/v1/z.proto" // import-only
 )
 
 func lintFixture() []*protoFile {
@@ -119,6 +120,15 @@ func lintFixture() []*protoFile {
 				leaf("x.syntax", `syntax = "proto3";`),
 				leaf("x.package", "package a.v1;"),
 				leaf("x.import", `import "c/v1/z.proto";`),
+				// file-level option statements: annotations of the PACKAGE_SAME_<OPTION> rules are located on them
+				// (a/v1/x2.proto is in the same package and disagrees on every one of them)
+				leaf("x.opt.go", `option go_package = "example.com/gen/a/v1;av1";`),
+				leaf("x.opt.java", `option java_package = "com.example.a.v1";`),
+				leaf("x.opt.javamulti", `option java_multiple_files = true;`),
+				leaf("x.opt.csharp", `option csharp_namespace = "Example.A.V1";`),
+				leaf("x.opt.php", `option php_namespace = "Example\\A\\V1";`),
+				leaf("x.opt.ruby", `option ruby_package = "Example::A::V1";`),
+				leaf("x.opt.swift", `option swift_prefix = "EAX";`),
 			},
 			Decls: []*node{
 				block("x.outer", "message Outer {",
@@ -137,6 +147,27 @@ func lintFixture() []*protoFile {
 			},
 		},
 		{
+			// second file of package a.v1: other values for every file option, an import that is public and unused
+			Path: lintFileA2,
+			Pre: []*node{
+				leaf("x2.syntax", `syntax = "proto3";`),
+				leaf("x2.package", "package a.v1;"),
+				leaf("x2.import", `import public "c/v1/z.proto";`),
+				leaf("x2.opt.go", `option go_package = "example.com/gen/other;other";`),
+				leaf("x2.opt.java", `option java_package = "com.example.other";`),
+				leaf("x2.opt.javamulti", `option java_multiple_files = false;`),
+				leaf("x2.opt.csharp", `option csharp_namespace = "Example.Other";`),
+				leaf("x2.opt.php", `option php_namespace = "Example\\Other";`),
+				leaf("x2.opt.ruby", `option ruby_package = "Example::Other";`),
+				leaf("x2.opt.swift", `option swift_prefix = "EOT";`),
+			},
+			Decls: []*node{
+				block("x2.second", "message Second {",
+					leaf("x2.second.field", "string fine = 1;"),
+				),
+			},
+		},
+		{
 			Path: lintFileB,
 			Pre: []*node{
 				leaf("y.syntax", `syntax = "proto3";`),
@@ -144,8 +175,10 @@ func lintFixture() []*protoFile {
 			},
 			Decls: []*node{
 				block("y.enum", "enum Color {",
+					leaf("y.enum.alias", "option allow_alias = true;"), // an option statement nested in a declaration
 					leaf("y.enum.v0", "COLOR_UNSPECIFIED = 0;"),
 					leaf("y.enum.v1", "RED = 1;"),
+					leaf("y.enum.v2", "CRIMSON = 1;"),
 				),
 				block("y.req", "message Req {",
 					leaf("y.req.field", "string OtherBad = 1;"),
